@@ -964,8 +964,9 @@ def solve_triangular(a, b, lower=False, **kw):
     n = a.shape[0]
     if b.shape[0] != n:
         raise NumpyRaise("ValueError", f"shapes of a {a.shape} and b {b.shape} are incompatible")
-    if kw.get("trans") or kw.get("unit_diagonal"):
-        raise SymAbort("solve_triangular options")
+    if kw.get("trans"):
+        raise SymAbort("solve_triangular(trans=...)")
+    unit = bool(kw.get("unit_diagonal"))          # the diagonal is TAKEN to be 1 (its entries are not read)
     cols = 1 if b.ndim == 1 else _prod(b.shape[1:])
     x = SArr.full(b.shape, 0)
     order = range(n) if lower else range(n - 1, -1, -1)
@@ -976,7 +977,7 @@ def solve_triangular(a, b, lower=False, **kw):
             rng = range(0, i) if lower else range(i + 1, n)
             for j in rng:
                 acc = acc - a.data[i * n + j] * sol[j]
-            sol[i] = acc / a.data[i * n + i]
+            sol[i] = acc if unit else acc / a.data[i * n + i]
         for i in range(n):
             x._own[i * cols + col] = sol[i]
     return x
